@@ -145,7 +145,13 @@ func (x *Exec) evalValue(fr *Frame, st *State, v ssa.Value, pred *ssa.BasicBlock
 		}
 		fr.env[v] = &FuncV{Fn: fn, Bind: binds, ID: id}
 	case *ssa.MakeChan:
-		fr.env[v] = &Prim{T: x.newRef(st)}
+		ref := x.newRef(st)
+		// a new channel is open and nothing has been sent on it
+		ck, closed := x.ghostLeaf(st, "chclosed", SBool)
+		st.heap[ck] = x.name(st, "chclosed", Store(closed, ref, TFalse))
+		sk, sent := x.ghostLeaf(st, "chsent", SInt)
+		st.heap[sk] = x.name(st, "chsent", Store(sent, ref, TZero))
+		fr.env[v] = &Prim{T: ref}
 	case *ssa.ChangeType:
 		fr.env[v] = x.get(fr, st, w.X)
 	case *ssa.ChangeInterface:
@@ -216,7 +222,14 @@ func (x *Exec) unop(fr *Frame, st *State, w *ssa.UnOp) Value {
 		}
 		return &Prim{T: Sub(TZero, t)}
 	case token.ARROW:
-		x.abort("channel receive (concurrency is outside the verified subset)")
+		// channel receive: the received value is arbitrary (what other goroutines send is not modelled);
+		// a receive never panics
+		et := w.X.Type().Underlying().(*types.Chan).Elem()
+		v := x.symbolic(st, et, "recv", false)
+		if w.CommaOk {
+			return &TupleV{E: []Value{v, &Prim{T: x.freshConst(st, "recvok", SBool)}}}
+		}
+		return v
 	case token.XOR:
 		x.abort("bitwise complement")
 	}
@@ -758,12 +771,14 @@ func (x *Exec) convert(st *State, v Value, from, to types.Type, pos token.Pos) V
 }
 
 func (x *Exec) selectOp(fr *Frame, st *State, w *ssa.Select) Value {
-	if w.Blocking {
-		x.abort("blocking select (concurrency is outside the verified subset)")
-	}
-	// non-blocking select: index is -1 (default) or one of the ready cases; received values are havoc
+	// select: index is -1 (default, non-blocking only) or one of the cases; which case is ready depends on
+	// other goroutines and is arbitrary; received values are havoc
 	idx := x.freshConst(st, "select", SInt)
-	st.assume(And(Ge(idx, IntLit(-1)), Lt(idx, IntLit(int64(len(w.States))))))
+	lo := IntLit(-1)
+	if w.Blocking {
+		lo = TZero
+	}
+	st.assume(And(Ge(idx, lo), Lt(idx, IntLit(int64(len(w.States))))))
 	res := []Value{&Prim{T: idx}, &Prim{T: x.freshConst(st, "recvok", SBool)}}
 	for i, s := range w.States {
 		if p, ok := x.get(fr, st, s.Chan).(*Prim); ok && p.DoneOf != nil {
@@ -775,7 +790,7 @@ func (x *Exec) selectOp(fr *Frame, st *State, w *ssa.Select) Value {
 			ct := s.Chan.Type().Underlying().(*types.Chan).Elem()
 			res = append(res, x.symbolic(st, ct, "recv", false))
 		} else {
-			x.abort("send in select")
+			x.chanSend(st, x.get(fr, st, s.Chan), Eq(idx, IntLit(int64(i))), w.Pos())
 		}
 	}
 	return &TupleV{E: res}
@@ -786,4 +801,80 @@ func (x *Exec) termOf(v Value) Term {
 		return p.T
 	}
 	return Term{}
+}
+
+// ------------------------------------------------------------------------------------------------
+// Concurrency primitives, abstracted sequentially (DESIGN.md S.1): the obligations are about panics only.
+//   ghost chclosed[ch]  the channel has been closed           ghost chsent[ch]  number of sends so far
+// A send on a closed channel and a close of a closed or nil channel panic; blocking is not modelled.
+// Assumed (listed in the evidence): no other goroutine closes a channel the function sends on or closes.
+
+func (x *Exec) chanRef(v Value) Term {
+	switch w := v.(type) {
+	case *Prim:
+		return w.T
+	case *PtrV:
+		if w.Loc == nil {
+			return TZero
+		}
+	}
+	x.abort("channel value %T", v)
+	return Term{}
+}
+
+func (x *Exec) chanSend(st *State, ch Value, guard Term, pos token.Pos) {
+	ref := x.chanRef(ch)
+	ck, closed := x.ghostLeaf(st, "chclosed", SBool)
+	_ = ck
+	x.oblige(st, "chan", "send-on-open-channel: "+x.prog.sourceLine(pos), Imp(guard, Not(Select(closed, ref))), []string{"C13"}, pos)
+	sk, sent := x.ghostLeaf(st, "chsent", SInt)
+	x.checkFrame(st, sk, ref)
+	x.recordWrite(st, sk)
+	st.heap[sk] = x.name(st, "chsent", Store(sent, ref, Term{fmt.Sprintf("(ite %s (+ %s 1) %s)", guard.S, Select(sent, ref).S, Select(sent, ref).S), SInt}))
+}
+
+func (x *Exec) chanClose(st *State, ch Value, pos token.Pos) {
+	ref := x.chanRef(ch)
+	ck, closed := x.ghostLeaf(st, "chclosed", SBool)
+	x.oblige(st, "chan", "close-of-open-non-nil-channel: "+x.prog.sourceLine(pos), And(Not(Eq(ref, TZero)), Not(Select(closed, ref))), []string{"C13"}, pos)
+	x.checkFrame(st, ck, ref)
+	x.recordWrite(st, ck)
+	st.heap[ck] = x.name(st, "chclosed", Store(closed, ref, TTrue))
+}
+
+// goStmt: `go f(args)`. The spawned function runs concurrently; for the spawning function only this is
+// modelled: the preconditions of f are obligations at the spawn point and everything f may assign is
+// unknown from here on (havoc at the spawn point; later interference is not modelled, so functions with
+// go statements carry only panic-safety and shape obligations). That the goroutine contains its panics is
+// the separate `go:` obligation of the spawn sweep (check.go goSpawnReport).
+func (x *Exec) goStmt(fr *Frame, st *State, v *ssa.Go) {
+	c := v.Call
+	if c.IsInvoke() {
+		x.note("go statement on an interface method: effects not modelled")
+		return
+	}
+	var args []Value
+	for _, a := range c.Args {
+		args = append(args, x.get(fr, st, a))
+	}
+	fv := x.get(fr, st, c.Value)
+	f, ok := fv.(*FuncV)
+	if !ok || f.Fn == nil {
+		x.note("go statement on a function value: effects not modelled")
+		return
+	}
+	key := funcKey(f.Fn)
+	ct := x.prog.cs.Funcs[key]
+	if ct == nil {
+		x.note(fmt.Sprintf("go %s: no contract, effects not modelled", shortKey(key)))
+		return
+	}
+	all := append(append([]Value{}, f.Bind...), args...)
+	if len(f.Bind) > 0 {
+		// closure: captured variables are not parameters of the contract; only its frame is applied
+		all = args
+	}
+	x.spawning = true
+	x.applyContract(fr, st, ct, key, f.Fn.Signature, f.Fn, all, v.Pos(), func(st2 *State, _ Value) {})
+	x.spawning = false
 }
